@@ -97,12 +97,13 @@ def run(ck):
     else:
         ck.analysed(fo['path'])
         m = next((n for n in walk(fo['body']) if n.get('k') == 'Match' and any('ConstantValue::' in pp(a['pat']) for a in n['arms'])), None)
-        arms = {pp(a['pat'], maxlen=60): a for a in (m['arms'] if m else [])}
-        for name in ('CString', 'QString'):
-            arm = next((a for p, a in arms.items() if 'ConstantValue::%s' % name in p), None)
+        arms = [(pp(a['pat'], maxlen=60), a) for a in (m['arms'] if m else [])]
+        for name, arm, ordn in [(nm_, a, i) for nm_ in ('CString', 'QString') for i, a in enumerate([a for p, a in arms if 'ConstantValue::%s' % nm_ in p] or [None])]:
             if arm is None:
                 ck.ob('R16.1', 'string-constant-arm|%s' % name, False, L.loc(fo['body']), 'arm not found')
                 continue
+            if ordn:
+                name = '%s#%d' % (name, ordn + 1)
             bind = H.pat_bindings(arm['pat'])
             hid = bind[0]['hid'] if bind else None
             raw = []
